@@ -17,7 +17,8 @@ class C20(CollProperty):
             "TSL<TSS>, TSD<Str,TSL>, TSD<TSW>, TSD<TSB{TS,TSS}>, TSL<TSB>, TSB{TS,TSL}, TSB{TS,TSB}, TSB{TS,TSW}) x seeded tick histories with gaps, removals, child-only ticks, cancelling mutations. Run 1: writer -> record (B1) "
             "and writer -> mirror (apply_delta(out, capture_delta(in))) -> record (B1m); run 2 (fresh executor whose GlobalState is seeded with run 1's): "
             "replay(B1) -> record (B2). Oracle: B2 == B1 and B1m == B1 cycle for cycle (same cycles, same deltas); at every tick the mirror's value equals "
-            "the writer's value. non-trivial = >= 2 recorded ticks; distinct = distinct (shapes, scripts)")
+            "the writer's value. non-trivial = >= 2 recorded ticks; distinct = distinct (shapes, scripts)"
+            " Round 3: 15% of the runs use the sparse (absolute-time) recording and replay it over a second-run window that begins before, on or after the first recorded tick: same cycles inside the window, same deltas when the whole recording is inside it.")
     assumptions = ["buffers are compared through the tree's own JSON value codec; list order inside added/removed is not significant"]
 
     SPARSE_SHAPES = ("TS", "TSStr", "TSL", "TSB", "TSBB", "TSLB")      # (no set / dictionary: empty structural ticks are finding F5)
